@@ -124,6 +124,11 @@ pub fn main_locks(args: &Args) {
     // ---- conversions -------------------------------------------------------------
     let mut dirs = crate::clicheck::project_dirs();
     dirs.truncate(maxproj);
+    if let Some(extra) = args.get("--extra-dirs") {
+        let mut more: Vec<std::path::PathBuf> = std::fs::read_dir(&extra).map(|rd| rd.filter_map(|e| e.ok()).map(|e| e.path()).filter(|p| p.is_dir()).collect()).unwrap_or_default();
+        more.sort();
+        dirs.extend(more);
+    }
     for d in &dirs {
         let name = d.file_name().unwrap().to_string_lossy().to_string();
         for mode in ["first", "repeat"] {
